@@ -407,3 +407,28 @@ Proof.
   - intros id. destruct (id =? 0); [|exact N0]. repeat split; cbn [map fst In]; intros H; repeat (destruct H as [H|H]; [discriminate|]); exact H.
   - repeat constructor; cbn; try exact N0; try exact N1; try apply N0; try apply N1.
 Qed.
+(* audit w7: ALL hypotheses of C07_document_with_styling_wellformed_partial instantiated together - a non-empty style table,
+   one region dictionary, one div with one caption (text, break, text) - and the document they give is accepted, with bound
+   namespace prefixes and its root in the TTML namespace *)
+Example C07_example_document_with_styling :
+  let table := [(lit "k1", [(lit "color", lit "white")])] in
+  let regions := [[(lit "xml:id", lit "bottom"); (lit "tts:displayAlign", lit "after")]] in
+  let cap := ([(lit "begin", lit "00:00:01.000"); (lit "end", lit "00:00:02.000"); (lit "region", lit "bottom"); (lit "style", lit "k1")],
+              [CText (lit "a & b"); CBreak; CText (lit "c<d")]) in
+  let divs := [([(lit "xml:lang", lit "en")], [cap])] in
+  (forall st, In st table -> style_entry_ok st) /\ forallb is_xml_char (lit "en") = true /\
+  Forall (fun a => attrs_ok a []) regions /\
+  Forall (fun dv => attrs_ok (fst dv) [] /\ Forall (caption_ok (fst (styling table))) (snd dv)) divs /\
+  match doc_parse (dfxp_document (doc_of_captions false (fst (styling table)) (lit "en") (style_elems table) regions divs)) with
+  | Some evs => ns_ok evs && root_in_ns (lit "tt") spec_ttml_ns evs
+  | None => false end = true.
+Proof.
+  split; [|split; [reflexivity|split; [|split; [|vm_compute; reflexivity]]]].
+  - intros st [<-|[]]; split; try reflexivity; cbn [snd map]; intros v Hv; cbn [In] in Hv;
+      repeat match goal with H : _ \/ _ |- _ => destruct H end; subst; try reflexivity; contradiction.
+  - constructor; [cbn [attrs_ok]; repeat split; reflexivity|constructor].
+  - constructor; [|constructor]. split; [cbn [attrs_ok fst]; repeat split; reflexivity|]. cbn [snd].
+    constructor; [|constructor]. unfold caption_ok. cbn [fst snd]. split; [cbn [attrs_ok]; repeat split; reflexivity|]. split.
+    + constructor; [reflexivity|]. constructor; [exact I|]. constructor; [reflexivity|constructor].
+    + cbn [map to_pnode]. apply bal_text. apply bal_break. apply bal_text. constructor.
+Qed.
